@@ -4,6 +4,8 @@ import (
 	"fmt"
 	"strings"
 
+	"github.com/vedadiyan/genql"
+
 	"verifharness/internal/fw"
 	"verifharness/internal/gen"
 	"verifharness/internal/ref"
@@ -11,7 +13,7 @@ import (
 )
 
 var c03Forced = []string{"group.1col", "group.2col", "group.3col", "group.nullkey", "group.mixedkey", "having", "having.key", "where", "star", "agg.COUNT*", "agg.COUNT", "agg.SUM", "agg.MIN", "agg.MAX", "agg.AVG",
-	"agg.samefn-diffcol", "agg.samefn-samecol", "agg.nullable", "whole.where", "whole.nowhere", "whole.empty", "whole.union", "whole.limit", "table.empty", "from.alias"}
+	"agg.samefn-diffcol", "agg.samefn-samecol", "agg.nullable", "whole.where", "whole.nowhere", "whole.empty", "whole.union", "whole.limit", "table.empty", "from.alias", "reexec.vars"}
 
 func init() {
 	fw.Register(&fw.Prop{
@@ -31,6 +33,7 @@ func init() {
 		MinNontrivial: 50,
 		Phases: []fw.Phase{
 			{Name: "group", N: func(t fw.Tier) int { return pick(t, 10000, 300000) }, Run: c03Group},
+			{Name: "reexec", N: func(t fw.Tier) int { return pick(t, 600, 15000) }, Run: c03Reexec},
 		},
 		Witness: sqlWitness,
 	})
@@ -510,4 +513,53 @@ func containsStr(xs []string, s string) bool {
 		}
 	}
 	return false
+}
+
+
+// c03Reexec: one Query object executed several times while a variable its
+// WHERE reads changes in between: every execution's aggregates are computed
+// over the rows that pass WHERE in that execution.
+func c03Reexec(c *fw.Case) {
+	t := c03Table(c, false)
+	if len(t.Rows) == 0 {
+		c.Discard("empty table")
+		return
+	}
+	grouped := c.Chance(0.4)
+	sql := "SELECT COUNT(*) AS c, SUM(v1) AS s, MAX(v2) AS m FROM t1 WHERE v1 >= GETVAR('min')"
+	if grouped {
+		sql = "SELECT g1, COUNT(*) AS c, SUM(v1) AS s FROM t1 WHERE v1 >= GETVAR('min') GROUP BY g1"
+	}
+	if c.Chance(0.3) && !grouped {
+		sql = "SELECT rid, SUM(v1) AS s FROM t1 WHERE v1 >= GETVAR('min')"
+	}
+	vars := map[string]any{"min": -1e9}
+	q, nerr := newSafe(DocOf(t), sql, genql.WithVars(vars))
+	if q == nil || nerr.Err != nil {
+		c.Violate("error", fmt.Sprintf("query could not be constructed: %v", nerr.Describe()), map[string]any{"sql": sql})
+		return
+	}
+	c.Feature("reexec.vars")
+	mins := []float64{-1e9}
+	for i := 0; i < 3; i++ {
+		mins = append(mins, dyadic(c))
+	}
+	mins = append(mins, -1e9)
+	for i, min := range mins {
+		vars["min"] = min
+		got := execBuilt(q)
+		fresh := Run(DocOf(t), sql, genql.WithVars(map[string]any{"min": min}))
+		c.Evals(2)
+		det := map[string]any{"sql": sql, "doc": DocOf(t), "execution": i + 1, "min": min, "observed": got.Describe(), "fresh_query": fresh.Describe()}
+		if !fresh.OK() {
+			c.Discard("a fresh query fails")
+			return
+		}
+		if !got.OK() || !(val.SameSeq(got.Rows, fresh.Rows) || grouped && val.SameMultiset(got.Rows, fresh.Rows)) {
+			c.Violate("reexec-stale", fmt.Sprintf("execution %d of the same Query (min = %v) returned %s, a fresh query returns %s", i+1, min, short(fmt.Sprint(got.Describe()), 200), short(val.Canon(fresh.Rows), 200)), det)
+			return
+		}
+	}
+	c.Sample(map[string]any{"sql": sql, "mins": mins})
+	c.Nontrivial(sql + val.Canon(t.Array()))
 }
